@@ -17,6 +17,9 @@ from vlib import report, layref as L, runner as R
 
 LEAVES_FULL = [["nil"], ["bool", True], ["bool", False], ["num", 0], ["num", 1], ["num", 2], ["num", 0.5], ["str", ""], ["str", "a"], ["str", "b"], ["var", "x"]]
 LEAVES_RED = [["nil"], ["bool", False], ["num", 1], ["str", "a"], ["var", "x"]]
+# numbers that only arise at run time: NaN, both infinities, negative zero (next to 0, 1 and a fraction); one operator over all of them
+LEAVES_SPECIAL = [["bin", "/", ["num", 0], ["num", 0]], ["bin", "/", ["num", 1], ["num", 0]], ["bin", "/", ["un", "-", ["num", 1]], ["num", 0]],
+                  ["bin", "*", ["num", 0], ["un", "-", ["num", 1]]], ["num", 0], ["num", 1], ["num", 0.5]]
 BINOPS = ["+", "-", "*", "/", "<", "<=", ">", ">=", "==", "!="]
 
 
@@ -272,6 +275,8 @@ class C01(Check):
         # (expr)
         for e in trees(0, LEAVES_FULL, memo) + trees(1, LEAVES_FULL, memo):
             yield ("expr", e, POSITIONS, LAYOUTS)
+        for e in trees(1, LEAVES_SPECIAL, memo):
+            yield ("expr", e, ["module", "fn"], ["min", "full"])
         if th:
             for e in trees(2, LEAVES_FULL, memo):
                 yield ("expr", e, ["module", "method"], ["min", "full"])
